@@ -12,12 +12,12 @@ from ..ref import bspline as rb
 
 ID = "C15"
 RULE = ("bfs: states are exact typed snapshots (knots, control points, weights) of a curve (and of a partner curve built from the "
-        "same KnotVector object / a copy, for the aliasing roots); from 9 initial curves (polynomial/rational, scalar/2-D, "
-        "degree 0..3, Fraction/float) every entry of a ~75-entry menu of valid and invalid public Curve operations is applied "
+        "same KnotVector object - with or without the same array of points and list of weights - or as a copy, for the aliasing roots); from 12 initial curves (polynomial/rational incl. very uneven weights, scalar/2-D, "
+        "degree 0..3, Fraction/float) every entry of a ~78-entry menu of valid and invalid public Curve operations is applied "
         "to fresh real objects up to depth 2 (3). Invariant in every state: len(ctrlpoints) = npts = len(knotvector)-degree-1, "
         "len(weights) = npts, the curve evaluates at every knot, mid-span and end. Transition oracle: an operation that raises "
         "leaves receiver and every other operand bit-identical; non-mutating operations leave all operands identical "
-        "whether they return or raise; a mutation never changes the partner curve. non-trivial = distinct (state, "
+        "whether they return or raise, and the curves they return are independent objects (their KnotVector is moved in place and they are mutated through a short history while the operands are watched); a mutation never changes the partner curve. non-trivial = distinct (state, "
         "operation) pairs that raised, or mutated the receiver")
 ASSUMPTIONS = ["history depth and argument menus are bounded", "mutation through curve.knotvector.<op>() is a KnotVector operation "
                "on an aliased object and outside this property", "setting ctrlpoints/weights to None is a deliberate reset and not in the menu"]
